@@ -162,7 +162,10 @@ def dep5(paragraphs, header=True):
         files = p["files"]
         out.append("Files: " + ("\n ".join(files) if isinstance(files, list) else files))
         cr = p["copyright"]
-        out.append("Copyright: " + ("\n ".join(cr) if isinstance(cr, list) else cr))
+        if p.get("copyright_nl"):
+            out.append("Copyright:\n " + ("\n ".join(cr) if isinstance(cr, list) else cr))
+        else:
+            out.append("Copyright: " + ("\n ".join(cr) if isinstance(cr, list) else cr))
         out.append("License: " + p["license"])
         if p.get("comment"):
             out.append("Comment: " + p["comment"])
